@@ -1,0 +1,31 @@
+//go:build verif
+
+// Contracts for package msg (silent-mode buffer), read by /verif's govc (comment-only; no declarations).
+
+package msg
+
+//@ type Box
+//@   invariant [config]    this.Logger != nil && this.MessageHandler != nil && this.NewTicker != nil && this.ForwardSend != nil
+//@   invariant [gc-config] this.GCSweep > 0 && this.GCExpire >= 2*this.GCSweep
+//@
+//@ once (*Box).init
+//@   ensures [maps]  this.pendingMessages != nil && this.startedSending != nil && this.totalInFlightTopicsBySender != nil
+//@   ensures [clock] this.stopClock != nil
+//@
+//@ monitor (*Box).lock
+//@   guards pendingMessages, startedSending, totalInFlightTopicsBySender
+//@   invariant [pending]  forall t string :: { dom(this.pendingMessages, t) } t in this.pendingMessages ==>
+//@                          this.pendingMessages[t] != nil && this.pendingMessages[t].messageCountPerSender != nil &&
+//@                          this.pendingMessages[t].logger != nil
+//@   invariant [inflight] forall s uint16 :: { dom(this.totalInFlightTopicsBySender, s) } s in this.totalInFlightTopicsBySender ==>
+//@                          this.totalInFlightTopicsBySender[s] != nil
+//@
+//@ func (*Box).HandleMessage
+//@   props C10 C14 C15
+//@   requires msg != nil
+//@
+//@ func (*Box).Send
+//@   props C14 C15
+//@
+//@ func (*Box).maybeGC
+//@   props C15
